@@ -64,6 +64,8 @@ func hsFrame(msg any) []byte {
 	return append([]byte(nil), sc.wrote.Bytes()...)
 }
 
+var hsValidOrig []any
+
 func hsValidMessages(rng *Rng) [][]byte {
 	rs := func(n int) string {
 		const al = "abcdefghijklmnopqrstuvwxyz0123456789"
@@ -73,16 +75,22 @@ func hsValidMessages(rng *Rng) [][]byte {
 		}
 		return string(b)
 	}
-	return [][]byte{
-		hsFrame(handshake.MessageHello{Salt: rs(64), Digest: rs(64)}),
-		hsFrame(handshake.MessageHello{Salt: rs(64), Digest: rs(64), DigestCert: rs(64)}),
-		hsFrame(handshake.MessageJoin{Node: "a@b", ConnectionID: rs(32), Salt: rs(64), Digest: rs(64)}),
-		hsFrame(handshake.MessageAccept{ID: rs(32), PoolSize: 3, PoolDSN: []string{"127.0.0.1:1234"}}),
-		hsFrame(handshake.MessageAccept{}),
-		hsFrame(handshake.MessageIntroduce{Node: "n@h", Version: gen.Version{Name: "x", Release: "1"}, Flags: gen.DefaultNetworkFlags,
-			Creation: 12345, MaxMessageSize: 1 << 20, AtomCache: map[uint16]gen.Atom{300: "abc"}, Digest: rs(64)}),
-		hsFrame(handshake.MessageHello{Salt: rs(3000), Digest: rs(5000)}), // spans several read buffers
+	msgs := []any{
+		handshake.MessageHello{Salt: rs(64), Digest: rs(64)},
+		handshake.MessageHello{Salt: rs(64), Digest: rs(64), DigestCert: rs(64)},
+		handshake.MessageJoin{Node: "a@b", ConnectionID: rs(32), Salt: rs(64), Digest: rs(64)},
+		handshake.MessageAccept{ID: rs(32), PoolSize: 3, PoolDSN: []string{"127.0.0.1:1234"}},
+		handshake.MessageAccept{},
+		handshake.MessageIntroduce{Node: "n@h", Version: gen.Version{Name: "x", Release: "1"}, Flags: gen.DefaultNetworkFlags,
+			Creation: 12345, MaxMessageSize: 1 << 20, AtomCache: map[uint16]gen.Atom{300: "abc"}, Digest: rs(64)},
+		handshake.MessageHello{Salt: rs(3000), Digest: rs(5000)}, // spans several read buffers
 	}
+	hsValidOrig = msgs
+	var out [][]byte
+	for _, m := range msgs {
+		out = append(out, hsFrame(m))
+	}
+	return out
 }
 
 func cutSegments(rng *Rng, b []byte, mode int) [][]byte {
@@ -133,6 +141,7 @@ func runC16Handshake(c *Ctx) {
 		impl  string
 		chunk []byte
 		segs  [][]byte
+		orig  any // set when the input is an intact frame of this message (possibly followed by more bytes)
 	}
 	var recs []rec
 	add := func(what string, chunk []byte, segs0 [][]byte) {
@@ -165,10 +174,18 @@ func runC16Handshake(c *Ctx) {
 		return o
 	}
 	// --- structured sweep ---------------------------------------------------------------
+	origs := append([]any(nil), hsValidOrig...)
 	for vi, m := range valid {
+		intactFrom := len(recs)
 		add(fmt.Sprintf("valid%d whole", vi), nil, [][]byte{m}[:1])
 		if len(m) <= 4096 {
 			add(fmt.Sprintf("valid%d as initial chunk", vi), m, nil)
+		}
+		for mode := 0; mode < 5; mode++ {
+			add(fmt.Sprintf("valid%d whole, segmentation %d", vi, mode), nil, cutSegments(c.Rng, m, mode))
+		}
+		for i := intactFrom; i < len(recs); i++ {
+			recs[i].orig = origs[vi]
 		}
 		// truncation at every byte (short messages) / at sampled bytes (long ones)
 		step := 1
@@ -323,6 +340,10 @@ func runC16Handshake(c *Ctx) {
 			nontriv = true
 		}
 		r.Case("hsr:"+rc.line, nontriv)
+		if rc.orig != nil && (cls != "ok" || err != nil || !reflect.DeepEqual(v, rc.orig)) {
+			// writer/reader round trip: an intact frame written by writeMessage must be read back as the same message
+			r.Violation("C16/handshake-frame-roundtrip", fmt.Sprintf("an intact %T frame was read back as (%T, err=%v)", rc.orig, v, err), rc.cs)
+		}
 		if cls == "ok" {
 			// stash the decoded result for the comparison with the model's payload
 			rc.impl = fmt.Sprintf("ok %d", sc.reads)
